@@ -1,3 +1,10 @@
--- This module serves as the root of the `RpmVerif` library.
--- Import modules here that should be built as part of the library.
-import RpmVerif.Basic
+-- root of the library: every property's theorems and every driver module
+import RpmVerif.Props.C01
+import RpmVerif.Props.C13
+import RpmVerif.Props.C16
+import RpmVerif.Props.C20
+import RpmVerif.Driver.C01
+import RpmVerif.Driver.C13
+import RpmVerif.Driver.C16
+import RpmVerif.Driver.C20
+import RpmVerif.Driver.Common
